@@ -139,8 +139,42 @@ def run(seed_id, checks, tier='quick', extra=()):
         json.dump(meta, f, indent=1)
 
 
+def table():
+    """Markdown table of the kept changes and the checks that catch them
+    (from the meta.json files written by verify/run)."""
+    import re
+    rows = []
+    for sid in sorted(os.listdir(SEEDED)):
+        mp = os.path.join(SEEDED, sid, 'meta.json')
+        if not os.path.exists(mp):
+            continue
+        m = json.load(open(mp))
+        needs = (m.get('needs') or '').strip().splitlines()
+        title = needs[0] if needs else ''
+        title = re.sub(r'^#+\s*', '', title)
+        title = re.sub(r'^(C\d\d\s*[/,-]?\s*)?(round \d\s*[,/]\s*)?'
+                       r'((change|patch)\s*\d\s*[:—-]*\s*)?', '', title,
+                       flags=re.I).strip(' -—:')
+        title = re.sub(r'^(C\d\d[- ]r\d\s*)?((change|patch)\s*\d\s*[:—-]*\s*)',
+                       '', title, flags=re.I).strip(' -—:')
+        det = m.get('detected_by', {})
+        caught = sorted(k.split(':')[0] for k, v in det.items()
+                        if v.get('exit') == 1)
+        missed = sorted(k.split(':')[0] for k, v in det.items()
+                        if v.get('exit') == 0)
+        c = ', '.join(caught) if caught else '**not caught**'
+        if missed and caught:
+            c += ' (not by ' + ', '.join(missed) + ')'
+        rows.append(f'| {sid} | {title[:150]} | {c} |')
+    print('| Seeded change | What it does | Caught by (quick tier) |')
+    print('|---|---|---|')
+    print('\n'.join(rows))
+
+
 if __name__ == '__main__':
-    if sys.argv[1] == 'verify':
+    if sys.argv[1] == 'table':
+        table()
+    elif sys.argv[1] == 'verify':
         verify(sys.argv[2], sys.argv[3], sys.argv[4], sys.argv[5])
     elif sys.argv[1] == 'run':
         args = sys.argv[2:]
